@@ -446,14 +446,14 @@ pub fn run(rep: &Report) {
     idx_params.extend([P::Float(0.0), P::Float(1.5), P::Str("0".into()), P::Bool(false), P::Unbound]);
     let ni = idx_params.len() as u64;
     run_indexed(rep, "index_grid", seqs.len() as u64 * ni, true, |i, l| check_index(&seqs[(i / ni) as usize], &idx_params[(i % ni) as usize], l));
-    run_family(rep, "random_slices", rep.tier.scale(300_000, 30), || (seq_strategy(), param_strategy(), param_strategy(), param_strategy()), |(x, p, q, r), l| {
+    run_family(rep, "random_slices", rep.tier.scale(1_500_000, 8), || (seq_strategy(), param_strategy(), param_strategy(), param_strategy()), |(x, p, q, r), l| {
         check_slice(x, p, q, r, l)?;
         if !matches!(p, P::Absent) {
             check_index(x, p, l)?;
         }
         Ok(())
     });
-    run_family(rep, "char_laws", rep.tier.scale(100_000, 30), || (string_strategy(24), 0usize..30), |(s, n), l| check_chars(s, *n, l));
+    run_family(rep, "char_laws", rep.tier.scale(500_000, 8), || (string_strategy(24), 0usize..30), |(s, n), l| check_chars(s, *n, l));
     rep.floor("slice:ok", 100_000);
     rep.floor("slice:err", 5_000);
     rep.floor("slice:multibyte", 50_000);
